@@ -13,7 +13,8 @@ META = dict(
 TOL = '0x1p-27'      # ~7.5e-9
 TOLP = '0x1p-20'     # ~1e-6 for comparisons up to phase / after products
 
-PRE = gates.COQ_HEADER + '''From VF Require Import Sim.Ref.
+PRE = gates.COQ_HEADER + '''From VF Require Import Sim.Ref Sim.CtrlApply Gates.CtrlValues.
+From Coq Require Import PeanoNat.
 Fixpoint mpow_nat (m : matrix (K:=FC)) (n : nat) : matrix := match n with O => mid FOps (length m) | S k => mmul FOps m (mpow_nat m k) end.
 Definition mpow_int (m : matrix (K:=FC)) (neg : bool) (n : nat) : matrix := mpow_nat (if neg then mdagger FOps m else m) n.
 '''
@@ -22,6 +23,99 @@ Definition mpow_int (m : matrix (K:=FC)) (neg : bool) (n : nat) : matrix := mpow
 def mat_gate(u, shape):
     return gates.G('Matrix', dict(m=np.asarray(u, dtype=complex)), shape)
 
+
+
+def cv_stream(ctx, cirq, mods, checks, n):
+    """Control-value objects: expand / & / | / validate / == / is_trivial compared with Gates/CtrlValues.v (vm_compute), and the
+    union reading of `|` decided on the block matrix."""
+    rng = ctx.rng
+    ll = lambda t: '[' + '; '.join(gates.nlist(list(x)) for x in t) + ']'
+
+    def draw(nq, kind=None):
+        kind = kind or rng.choice(['pos', 'pos', 'sop'])
+        dims = [rng.choice([2, 2, 2, 3, 4]) for _ in range(nq)]
+        if kind == 'pos':
+            data = [sorted(rng.sample(range(d), rng.randint(1, min(d, 2)))) for d in dims]
+            return ('pos', data, cirq.ProductOfSums([tuple(v) for v in data]) if rng.random() < 0.7 else
+                    cirq.ProductOfSums([v[0] if len(v) == 1 else tuple(v) for v in data]), dims)
+        import itertools as it
+        allt = list(it.product(*[range(d) for d in dims]))
+        data = sorted(set(rng.sample(allt, rng.randint(1, min(len(allt), 4)))))
+        return ('sop', [list(t) for t in data], cirq.SumOfProducts(data), dims)
+
+    def model_expand(kind, data):
+        return f'(pos_expand {ll(data)})' if kind == 'pos' else ll(data)
+
+    fixed = [(('pos', [[0], [0]]), ('pos', [[1], [1]])), (('pos', [[0, 1], [1]]), ('pos', [[1], [0]])), (('pos', [[0]]), ('pos', [[1]])),
+             (('pos', [[0], [1], [2]]), ('pos', [[2], [0], [1]])), (('pos', [[1], [1]]), ('sop', [[0, 0], [1, 1]])),
+             (('sop', [[0, 1]]), ('sop', [[1, 0]])), (('pos', [[0, 1], [0, 1]]), ('pos', [[1], [1]]))]
+    mk = lambda kd: (kd[0], kd[1], cirq.ProductOfSums([tuple(v) for v in kd[1]]) if kd[0] == 'pos' else cirq.SumOfProducts(kd[1]),
+                     [max(max(t) for t in kd[1]) + 1] * len(kd[1][0] if kd[0] == 'sop' else kd[1]))
+    cases = [(mk(a), mk(b)) for a, b in fixed]
+    for _ in range(60 * n):
+        nq = rng.choice([1, 2, 2, 3])
+        a = draw(nq)
+        b = draw(nq if rng.random() < 0.7 else rng.choice([1, 2]))
+        cases.append((a, b))
+    for (ka, da, ca, dimsa), (kb, db, cb, dimsb) in cases:
+        key = [ka, da, kb, db]
+        ea, eb = model_expand(ka, da), model_expand(kb, db)
+        # expand
+        got = [list(t) for t in ca.expand()]
+        ctx.count('cv_expand', [ka, da], len(got) > 1, sample=dict(cv=[ka, da], expand=got))
+        checks.append(('cv_expand', f'cv_same {ea} {ll(got)} && Nat.eqb (length {ll(got)}) (length (nodup (list_eq_dec Nat.eq_dec) {ea}))',
+                       f'expand() of {ca!r} is not the set of tuples the specification allows', dict(signature=f'cv:expand:{ka}', cv=[ka, da])))
+        # & (both the ProductOfSums short-cut and the general path)
+        both = ca & cb
+        got = [list(t) for t in both.expand()]
+        ctx.count('cv_and', key, True, sample=dict(a=[ka, da], b=[kb, db], result=repr(both)))
+        model = f'(pos_expand (pos_and {ll(da)} {ll(db)}))' if ka == kb == 'pos' else f'(sop_and {ea} {eb})'
+        checks.append(('cv_and', f'cv_same {model} {ll(got)} && cv_same (sop_and {ea} {eb}) {ll(got)}',
+                       f'({ca!r}) & ({cb!r}) = {both!r} is not the product of the two specifications',
+                       dict(signature=f'cv:and:{ka}-{kb}', a=[ka, da], b=[kb, db])))
+        if cirq.num_qubits(both) != len(da if ka == 'pos' else da[0]) + len(db if kb == 'pos' else db[0]):
+            checks.append(('cv_and', 'false', f'num_qubits of ({ca!r}) & ({cb!r}) is not the sum', dict(signature='cv:and:num_qubits', a=[ka, da], b=[kb, db])))
+        # | : the documented union
+        na, nb = cirq.num_qubits(ca), cirq.num_qubits(cb)
+        try:
+            either = ca | cb
+        except ValueError:
+            either = None
+        ctx.count('cv_or', key, either is not None, sample=dict(a=[ka, da], b=[kb, db], result=repr(either)))
+        if (either is None) != (na != nb):
+            checks.append(('cv_or', 'false', f'({ca!r}) | ({cb!r}): {"raised" if either is None else "did not raise"} with {na} and {nb} control qudits',
+                           dict(signature='cv:or:arity', a=[ka, da], b=[kb, db])))
+        elif either is not None:
+            got = [list(t) for t in either.expand()]
+            multi = ka == kb == 'pos' and na > 1
+            checks.append(('cv_or', f'cv_same (sop_or {ea} {eb}) {ll(got)}',
+                           f'({ca!r}) | ({cb!r}) = {either!r} selects {got}, not the union of the two selections',
+                           dict(signature='cv:or:pos-pos-multi-qudit' if multi else f'cv:or:{ka}-{kb}', a=[ka, da], b=[kb, db])))
+            if multi:   # what the short-cut does compute is pinned too, so a different wrong answer is a different finding
+                checks.append(('cv_or', f'cv_same (pos_expand (pos_or {ll(da)} {ll(db)})) {ll(got)}',
+                               f'({ca!r}) | ({cb!r}) = {either!r} is not even the per-qudit union', dict(signature='cv:or:pos-pos-per-qudit', a=[ka, da], b=[kb, db])))
+        # validate against the drawn shape and against a shape one level too small somewhere
+        for shape in (dimsa, [max(1, d - 1) if i == len(dimsa) - 1 else d for i, d in enumerate(dimsa)], dimsa[:-1], dimsa + [2]):
+            try:
+                ca.validate(shape)
+                ok = True
+            except ValueError:
+                ok = False
+            ctx.count('cv_validate', [ka, da, shape], not ok)
+            model = f'pos_valid {ll(da)} {gates.nlist(shape)}' if ka == 'pos' else f'sop_valid {ll(da)} {gates.nlist(shape)}'
+            checks.append(('cv_validate', f'Bool.eqb ({model}) {"true" if ok else "false"}',
+                           f'{ca!r}.validate({shape}) {"accepted" if ok else "refused"}; the model of validate says otherwise',
+                           dict(signature=f'cv:validate:{ka}', cv=[ka, da], shape=shape)))
+        # equality and hash agree with the selections; is_trivial
+        eq = ca == cb
+        ctx.count('cv_eq', key, bool(eq))
+        checks.append(('cv_eq', f'Bool.eqb (cv_same {ea} {eb}) {"true" if eq else "false"}', f'({ca!r}) == ({cb!r}) answered {eq}; the selected tuples say otherwise',
+                       dict(signature='cv:eq', a=[ka, da], b=[kb, db])))
+        if eq and hash(ca) != hash(cb):
+            checks.append(('cv_eq', 'false', f'{ca!r} == {cb!r} but the hashes differ', dict(signature='cv:hash', a=[ka, da], b=[kb, db])))
+        if ka == 'pos':
+            checks.append(('cv_trivial', f'Bool.eqb (pos_trivial {ll(da)}) {"true" if ca.is_trivial else "false"}', f'is_trivial of {ca!r}',
+                           dict(signature='cv:is_trivial', cv=[ka, da])))
 
 def run(ctx):
     mods = env.import_cirq(('cirq_google', 'cirq_ionq'))
@@ -42,6 +136,7 @@ def run(ctx):
     ctrl_stream(ctx, cirq, mods, checks, 90 * n)
     phase_stream(ctx, cirq, mods, checks, 90 * n)
     predicate_stream(ctx, cirq, mods, checks, n)
+    cv_stream(ctx, cirq, mods, checks, n)
     evaluate(ctx, checks)
 
 
@@ -331,6 +426,28 @@ def predicate_stream(ctx, cirq, mods, checks, n):
         (keep if k not in seen else rest).append(r)
         seen.add(k)
     checks.extend(keep + rest[:max(0, 500 * n - len(keep))])
+    # ---- commutes between single-qubit Clifford gate objects (tableau rule), every ordered pair, as gates and as operations,
+    #      and against the Pauli/H/S gate objects: the matrices (tied to the model by C03's Clifford rows) decide ----
+    allc = list(cirq.SingleQubitCliffordGate.all_single_qubit_cliffords)
+    q0 = cirq.LineQubit(0)
+    others = [('X', cirq.X), ('Y', cirq.Y), ('Z', cirq.Z), ('H', cirq.H), ('S', cirq.S), ('X**0.5', cirq.X**0.5)]
+    pairs = [((f'clifford[{i}]', a), (f'clifford[{j}]', b)) for i, a in enumerate(allc) for j, b in enumerate(allc)]
+    pairs += [((f'clifford[{i}]', a), o) for i, a in enumerate(allc) for o in others]
+    pairs += [(o, (f'clifford[{i}]', a)) for i, a in enumerate(allc) for o in others]
+    for (na, a), (nb, b) in pairs:
+        for form in ('gate', 'op'):
+            xa, xb = (a, b) if form == 'gate' else (a.on(q0), b.on(q0))
+            ans = cirq.commutes(xa, xb, atol=1e-8, default=None)
+            ctx.count('commutes_clifford', [na, nb, form], ans is True, sample=dict(a=na, b=nb, form=form, commutes=ans))
+            if ans is True:
+                ma, mb = (gates.G('Matrix', dict(m=unitary_of(cirq, x)), (2,)) for x in (a, b))
+                anti = bool(np.allclose(ma.p['m'] @ mb.p['m'], -(mb.p['m'] @ ma.p['m']), atol=1e-9))    # the one recorded way to be wrong
+                ab, ba = f'[({ma.coq()}, [0%nat]); ({mb.coq()}, [0%nat])]', f'[({mb.coq()}, [0%nat]); ({ma.coq()}, [0%nat])]'
+                checks.append(('commutes_clifford', f'fcll_close {TOLP} (circ_unitary FOps [2%nat] {ab}) (circ_unitary FOps [2%nat] {ba})',
+                               f'cirq.commutes({na}, {nb}) as {form}s said True but the matrices do not commute',
+                               dict(signature=(f'commutes:clifford:{form}:anticommuting-pair' if anti else f'commutes:clifford:{form}:{na}:{nb}')
+                                    if na.startswith('clifford') and nb.startswith('clifford') else f'commutes:clifford-mixed:{form}',
+                                    a=na, b=nb, form=form)))
     # ---- has_stabilizer_effect: grid over families x special exponents x shifts (numpy oracle on the matrix) ----
     stab_fams = gates.FAST + ['ISwapPow', 'CCZPow', 'CCXPow', 'ZZPow', 'XXPow', 'YYPow', 'CYPow']
     grid = [E(f, e, s) for f in stab_fams for e in gates.SPECIAL_EXP + [0.3, 1.0000001] for s in (0.0, 0.5, -0.5, 0.25)]
